@@ -422,6 +422,10 @@ func MasterMain(id, tier, self string) int {
 		return 2
 	}
 	total := len(cases)
+	kinds := map[string]int{}
+	for _, c := range cases {
+		kinds[c.Kind]++
+	}
 	// Optional slicing for debugging
 	if v := os.Getenv("VERIF_LIMIT"); v != "" {
 		n, _ := strconv.Atoi(v)
@@ -619,6 +623,7 @@ func MasterMain(id, tier, self string) int {
 		"bounds":              bounds,
 		"known_findings_hit":  knownHit,
 		"workers":             nw,
+		"cases_by_kind":       kinds,
 	}
 	if len(extra) > 0 {
 		cov["counters"] = extra
@@ -658,6 +663,7 @@ func MasterMain(id, tier, self string) int {
 	for _, k := range keys {
 		fmt.Printf("  outcome %-40s %d\n", k, hist[k])
 	}
+	fmt.Printf("  kinds %v\n", kinds)
 	if exit == 0 && (len(gaps) > 0 || flaky > 0) {
 		return 2
 	}
@@ -771,4 +777,35 @@ func ReplayMain(path, self string) int {
 	}
 	fmt.Printf("replay: property held on this case (class %s)\n", o.Class)
 	return 0
+}
+
+// SyslBin is the sysl CLI built from /repo's working tree by run.sh.
+func SyslBin() string { return filepath.Join(VerifDir(), ".cache", "bin", "sysl") }
+
+// RunCLI runs the sysl binary in dir with a deadline; returns exit code (-1 = killed on deadline), stdout, stderr.
+func RunCLI(dir string, timeout time.Duration, args ...string) (int, string, string) {
+	cmd := exec.Command(SyslBin(), args...)
+	cmd.Dir = dir
+	cmd.Env = append(os.Environ(), "GOTRACEBACK=all", "SYSL_PLANTUML=http://localhost:1", "HOME="+dir)
+	var so, se strings.Builder
+	cmd.Stdout = &so
+	cmd.Stderr = &se
+	if err := cmd.Start(); err != nil {
+		return -2, "", err.Error()
+	}
+	done := make(chan error, 1)
+	go func() { done <- cmd.Wait() }()
+	select {
+	case <-done:
+		return cmd.ProcessState.ExitCode(), so.String(), se.String()
+	case <-time.After(timeout):
+		_ = cmd.Process.Kill()
+		<-done
+		return -1, so.String(), se.String()
+	}
+}
+
+// CrashText reports whether CLI stderr/stdout carries a Go crash dump.
+func CrashText(s string) bool {
+	return strings.Contains(s, "panic: ") || strings.Contains(s, "fatal error: ") || strings.Contains(s, "goroutine 1 [") || strings.Contains(s, "[recovered]")
 }
